@@ -1,0 +1,41 @@
+//go:build verif
+
+package verifhook
+
+import (
+	"encoding/json"
+	"fmt"
+	"os"
+	"sync"
+)
+
+// When VERIF_TRACE_FILE names a file, every hook event of the process is appended to it as one JSON line
+// (sequence number, component, event, identity of the emitting object, arguments, library clock in ns).
+// This lets the verification harness validate the executions of the repository's own tests.
+func init() {
+	path := os.Getenv("VERIF_TRACE_FILE")
+	if path == "" {
+		return
+	}
+	f, err := os.OpenFile(path, os.O_CREATE|os.O_WRONLY|os.O_APPEND, 0o644)
+	if err != nil {
+		return
+	}
+	var wmu sync.Mutex
+	enc := json.NewEncoder(f)
+	SetSink(func(e Event) {
+		args := make([]interface{}, len(e.Args))
+		for i, a := range e.Args {
+			switch v := a.(type) {
+			case string, bool, int, int64, float64:
+				args[i] = v
+			default:
+				args[i] = fmt.Sprint(v)
+			}
+		}
+		wmu.Lock()
+		_ = enc.Encode(map[string]interface{}{"seq": e.Seq, "comp": e.Comp, "ev": e.Ev, "obj": fmt.Sprintf("%p", e.Obj),
+			"args": args, "t": Now().UnixNano(), "pid": os.Getpid()})
+		wmu.Unlock()
+	})
+}
